@@ -211,4 +211,22 @@ theorem listOutputsWith_ops (a : Args) (om : Bool) (tree : List (Entry × OutPat
   | error x => simp [listOutputsWith, ht, typesOut_ops_dry]
   | ok _ => simp [listOutputsWith, ht, supportOut_ops_dry, typesOut_ops_dry]
 
+/-- What `get_templates` enumerates is part of what `get_template_inputs` returns. -/
+theorem typeTemplates_subset_typeInputs (a : Args) : ∀ f ∈ typeTemplates a, f ∈ typeInputs a := by
+  intro f hf
+  unfold typeInputs
+  rw [List.mem_filter]
+  refine ⟨?_, by simp [hf]⟩
+  unfold typeTemplates at hf
+  cases ht : a.templates with
+  | some fs => simp only [ht, List.mem_filter] at hf; simp only [typeLoaderFiles, ht]; exact hf.1
+  | none => simp only [ht, List.mem_filter] at hf; exact hf.1
+
+/-- A file of the loader that is not byte code is part of what `get_template_inputs` returns. -/
+theorem mem_typeInputs (a : Args) {f : TemplateFile} (hf : f ∈ typeLoaderFiles a) (hp : inPycache f.name = false) :
+    f ∈ typeInputs a := by
+  unfold typeInputs
+  rw [List.mem_filter]
+  exact ⟨hf, by simp [hp]⟩
+
 end NunavutVerif.Cli
